@@ -24,6 +24,34 @@ Theorem C11_rtu_bad_crc_resyncs : forall cfg st st2, rtu_check cfg st = (st2, Ok
 Proof. exact rtu_check_false_resets. Qed.
 Print Assumptions C11_rtu_bad_crc_resyncs.
 
+(* RTU RECOVERY BOUND, request direction (ServerDecoder table), for EVERY buffer content (any
+   garbage) and every pending header whose length is at most 268: once 268 = 255 + 10 + 3 bytes
+   are buffered (the largest extent the request-table size oracle can return) a call cannot keep
+   waiting: it raises (the serial handlers then reset the framer), or drops everything and is
+   synchronised, or delivers one message (justified: C07_gate_rtu) consuming at least 4 bytes and
+   leaving an empty header.  268 bytes is at most two maximum-size frames (2 x 256) of traffic. *)
+Theorem C11_recover_rtu : forall cfg st chunk st' ds x,
+  cf_rules cfg = server_decoder -> wfb (r_buf st ++ chunk) = true -> hdr_bounded (r_hdr st) ->
+  (268 <= zlen (r_buf st ++ chunk))%Z ->
+  rtu_recv cfg st chunk = (st', ds, x) ->
+  x <> FOk \/
+  (r_buf st' = [] /\ r_hdr st' = hdr_empty /\ ds = []) \/
+  (exists d, ds = [d] /\ r_hdr st' = hdr_empty /\ (zlen (r_buf st') + 4 <= zlen (r_buf st ++ chunk))%Z).
+Proof. exact rtu_recover_server. Qed.
+Print Assumptions C11_recover_rtu.
+
+(* its header hypothesis is an invariant: true initially, after a reset, and after every call
+   that returns normally *)
+Theorem C11_rtu_header_bounded : hdr_bounded (r_hdr rtu_init) /\ hdr_bounded hdr_empty /\
+  forall cfg st chunk st' ds,
+    cf_rules cfg = server_decoder -> wfb (r_buf st ++ chunk) = true -> hdr_bounded (r_hdr st) ->
+    rtu_recv cfg st chunk = (st', ds, FOk) -> hdr_bounded (r_hdr st').
+Proof. split; [exact hdr_bounded_init|]. split; [exact hdr_bounded_empty|]. exact rtu_recv_hdr_bounded. Qed.
+Print Assumptions C11_rtu_header_bounded.
+
+(* the bound is specific to the request table: on the response table it is refuted
+   (C11_rtu_fifo_refuted: 16 MB extent; C06_rtu_mei_refuted: KeyError for ever) *)
+
 (* binary, partial: from any state with an empty buffer, delimiter-free valid frames, one per
    read, are each delivered by their own read (any number of them) *)
 Theorem C11_binary_after_sync : forall cfg (frames : list (N * bytes)) st,
